@@ -3,7 +3,7 @@ NOTES = ("Exit codes: 0 held / 1 VIOLATION / 2 UNDECIDED (lost anchor, tool erro
 
 CHECKS = {
     "C06": {
-        "text": "Proof (Verus) on the real functions, extracted verbatim each run. crates/common/src/lib.rs: Scaled::{from_integer, from_decimal_digits, new, xn_over_d, nx_plus_y, integer_part, fractional_part, abs, checked_*/wrapping_*}, the operator impls, ScaledUnit::conversion_fraction and display_no_units::fmt are proved equal to independent transcriptions of TeX.2021 §§100-107, 458 and print_scaled (§103) for all inputs. crates/texlang/src/parse/integer.rs: add_lsd, parse_constant, parse_optional_signs and parse_integer == TeX §§440-446 (all three radices, saturation at 2^31-1 with exactly one error, sign parity, silent wrap of -(-2^31)). crates/texlang/src/parse/keyword.rs: parse_keyword == TeX §407 (which tokens a keyword occupies in either ASCII case, everything put back on a mismatch at any position); the unit keyword parser <ScaledUnit as Parsable>::parse_impl == TeX §458 (nine units in order, else one error + pt, nothing consumed). crates/texlang/src/parse/glue.rs: <Glue as Parsable>::parse_impl == TeX §461. crates/texlang/src/parse/dimen.rs: scan_decimal_fraction (17 kept digits), scan_constant_dimen, scan_and_apply_units (fil/fill/filll, internal quantities, em/ex, [true] + the nine units), handle_overflow and scan_dimen == TeX §§448-458 for every token sequence, including the documented error + clamped value. crates/texlang-stdlib/src/math.rs: the \\advance/\\multiply/\\divide kernels for i32, Scaled and Glue == TeX's integer algorithms (wrap on \\advance, error + no change on overflow or division by zero).",
+        "text": "Proof (Verus) on the real functions, extracted verbatim each run. crates/common/src/lib.rs: Scaled::{from_integer, from_decimal_digits, new, xn_over_d, nx_plus_y, integer_part, fractional_part, abs, checked_*/wrapping_*}, the operator impls, ScaledUnit::conversion_fraction and display_no_units::fmt are proved equal to independent transcriptions of TeX.2021 §§100-107, 458 and print_scaled (§103) for all inputs; the Display impls of Scaled, GlueOrder and Glue print exactly TeX's print_spec (§§176-178: width, ` plus ` / ` minus ` parts iff non-zero, pt / fil / fill / filll), and Glue::{wrapping_add, checked_add, checked_mul, wrapping_mul, checked_div} == TeX §1239-1240. crates/texlang/src/parse/integer.rs: add_lsd, parse_constant, parse_optional_signs and parse_integer == TeX §§440-446 (all three radices, saturation at 2^31-1 with exactly one error, sign parity, silent wrap of -(-2^31)). crates/texlang/src/parse/keyword.rs: parse_keyword == TeX §407 (which tokens a keyword occupies in either ASCII case, everything put back on a mismatch at any position); the unit keyword parser <ScaledUnit as Parsable>::parse_impl == TeX §458 (nine units in order, else one error + pt, nothing consumed). crates/texlang/src/parse/glue.rs: <Glue as Parsable>::parse_impl == TeX §461. crates/texlang/src/parse/dimen.rs: scan_decimal_fraction (17 kept digits), scan_constant_dimen, scan_and_apply_units (fil/fill/filll, internal quantities, em/ex, [true] + the nine units), handle_overflow and scan_dimen == TeX §§448-458 for every token sequence, including the documented error + clamped value. crates/texlang-stdlib/src/math.rs: the \\advance/\\multiply/\\divide kernels for i32, Scaled and Glue == TeX's integer algorithms (wrap on \\advance, error + no change on overflow or division by zero).",
         "design_ref": "DESIGN.md §5 C06",
         "note": "Trusted oracles around the proved functions: parse_internal_number, parse_character, the provided method Parsable::parse (delegates to parse_impl), the ExpandedStream next/back/error model (macro expansion abstracted), em/ex providers, three std string/char stubs under parse_keyword; the.rs token production is covered by bounded drivers only. texcraft's parse_keyword matches LETTER tokens only (TeX §407 accepts any non-active category): observation in DESIGN 9.3, encoded in the spec as the code's behaviour, outside what C06 states. Assumed: Verus/Z3 + vstd; derived PartialOrd on Scaled is the order of the inner i32. Left open (outside TeX's constant grammar): `<digits><space><point>`.",
         "technique": "contract-based deductive verification (Verus requires/ensures/loop invariants on extracted real code)",
